@@ -242,7 +242,314 @@ class Mut:
         return "1 { | =" + s + " => 1 | 2 }"
 
 
-CLASSES = ["source", "prefix", "delete", "duplicate", "substitute", "charmut", "nest", "arbitrary", "stringy"]
+# ---------------------------------------------------------------------------------------------------
+# Type definitions, drawn systematically (the compiler-totality leg: type resolution in typing.rs,
+# spreads, partials, generics, recursion; every construct in every position).
+class TypeGen:
+    """Programs made of type alias definitions followed by uses of them.
+
+    definitions : tuple (positional / named / mixed / duplicate field names, named or unnamed),
+                  union (of tuples with different field styles, of primitives, leading `|`),
+                  partial (`(a: T)`, `Name(a: T)`, `()`, `Name()`), recursive (`^`, `^1`, `^2`),
+                  generic (`'p<'a, 'b> = ..`), function / process / intersection / module / resource
+                  types, primitive aliases; and SPREADING definitions built on earlier ones:
+                  `[...'a, f: T]`, `Name[...'a]`, `(...'a, f: T)`, `Name(...'a, f: T)`, `'a[..., f: T]`,
+                  `'a[...]`, several spreads, spreads of unions / partials / generics (`...'g<'int>`) /
+                  recursive aliases / primitives / functions / undefined names / the alias itself,
+                  overriding and duplicate field names
+    positions   : alias `'x = T`; parameter `#T { .. }`, `#T -> U { .. }`, `#<'t>T { .. }`; `=` type
+                  patterns `v =T`, `v =(T)x`, `v { | =T => 1 | 2 }`, field patterns `=A[f: (T)n]`;
+                  spawn / receive `@#(T) { .. }`, `!#(T)`; nested inside other types
+    A small rate of deliberate slips (undefined alias, wrong arity, lower-case tuple name, missing
+    comma) keeps part of the output near-valid rather than valid."""
+
+    PRIMS = ["'int", "'bin", "'ref"]
+    LABELS = ["a", "b", "c", "x", "y", "z", "id", "tag"]
+    TNAMES = ["A", "B", "Pt", "Pair", "Box", "Nil", "Cons", "Circle", "User"]
+
+    def __init__(self, rng):
+        self.rng = rng
+        self.aliases = []        # (name, nparams, kind)
+        self.stats = {}
+
+    def note(self, k):
+        self.stats[k] = self.stats.get(k, 0) + 1
+
+    def ch(self, p):
+        return self.rng.random() < p
+
+    # ---------------------------------------------------------------- type expressions
+    def alias_ref(self, params=(), depth=1):
+        rng = self.rng
+        if not self.aliases:
+            return rng.choice(self.PRIMS)
+        if not self.ch(0.03):
+            name, np, _ = rng.choice(self.aliases)
+        else:
+            name, np = rng.choice(["nosuch", "t", "list"]), 0          # undefined alias
+            self.note("ref-undefined")
+        if np and not self.ch(0.08):
+            return "'%s<%s>" % (name, ", ".join(self.ty(depth - 1, params) for _ in range(np)))
+        if not np and self.ch(0.04):
+            self.note("arity-slip")
+            return "'%s<'int>" % name
+        return "'" + name
+
+    def fields(self, depth, params, style=None, n=None):
+        rng = self.rng
+        style = style or rng.choice(["pos", "pos", "named", "named", "mixed", "dup", "empty"])
+        n = n if n is not None else rng.choice([1, 2, 2, 3])
+        if style == "empty":
+            return []
+        out, labels = [], rng.sample(self.LABELS, n)
+        for i in range(n):
+            t = self.ty(depth - 1, params)
+            if style == "pos" or (style == "mixed" and i % 2 == 0):
+                out.append(t)
+            elif style == "dup":
+                out.append("%s: %s" % (labels[0], t))
+            else:
+                out.append("%s: %s" % (labels[i], t))
+        return out
+
+    def tuple_ty(self, depth, params, style=None):
+        name = self.rng.choice(self.TNAMES + ["", "", ""])
+        fs = self.fields(depth, params, style)
+        if not fs and name and self.ch(0.6):
+            return name
+        return "%s[%s]" % (name, ", ".join(fs))
+
+    def partial_ty(self, depth, params):
+        name = self.rng.choice(self.TNAMES[:4] + ["", "", ""])
+        style = self.rng.choice(["named", "named", "named", "empty", "dup", "mixed"])
+        fs = self.fields(depth, params, style)
+        self.note("partial")
+        return "%s(%s)" % (name, ", ".join(fs))
+
+    def spread_item(self, params):
+        """one `...` item of a field list"""
+        rng = self.rng
+        r = rng.random()
+        if not self.aliases:
+            r = r * 0.1                     # nothing to spread yet: only the slips
+        if r < 0.04:
+            self.note("spread-bare")
+            return "..."
+        if r < 0.08:
+            self.note("spread-prim")
+            return "..." + rng.choice(self.PRIMS + ["'nosuch"])
+        ref = self.alias_ref(params, 0)
+        self.note("spread-alias")
+        return "..." + ref
+
+    def spread_ty(self, depth, params):
+        """a tuple / partial type whose field list contains spreads"""
+        rng = self.rng
+        items = []
+        k = rng.choice([1, 1, 1, 2, 3])
+        extra = self.fields(depth, params, rng.choice(["named", "named", "named", "pos", "mixed", "dup", "empty"]), rng.choice([0, 1, 1, 2]))
+        form = rng.random()
+        if form < 0.42 and not any(":" in e.split("(")[0].split("[")[0] for e in extra) and self.ch(0.9):
+            # the parser reads `( .. )` as a partial only when a field is named (or it is empty)
+            extra = extra + ["%s: %s" % (rng.choice(self.LABELS), self.ty(depth - 1, params))]
+        items = [self.spread_item(params) for _ in range(k)] + extra
+        if self.ch(0.5):
+            rng.shuffle(items)
+        body = ", ".join(items)
+        if form < 0.30:
+            self.note("spread-in-partial")
+            return "(%s)" % body
+        if form < 0.42:
+            self.note("spread-in-named-partial")
+            return "%s(%s)" % (rng.choice(self.TNAMES[:5]), body)
+        if form < 0.62:
+            self.note("spread-in-tuple")
+            return "[%s]" % body
+        if form < 0.80:
+            self.note("spread-in-named-tuple")
+            return "%s[%s]" % (rng.choice(self.TNAMES[:5]), body)
+        # 'alias[..., f: T]  (identifier spread: inherits the name, `...` means the alias itself)
+        self.note("spread-identifier-form")
+        a = self.alias_ref(params, 0).split("<")[0]
+        if a in self.PRIMS and not self.ch(0.1):
+            return "[%s]" % body
+        inner = ", ".join((["..."] if self.ch(0.85) else []) + extra) or "..."
+        return "%s[%s]" % (a, inner)
+
+    def ty(self, depth, params=(), top=False):
+        rng = self.rng
+        if depth <= 0 or self.ch(0.25):
+            r = rng.random()
+            if r < 0.45:
+                return rng.choice(self.PRIMS)
+            if r < 0.75:
+                return self.alias_ref(params, depth)
+            if params and r < 0.9:
+                return "'" + rng.choice(params)
+            if r < 0.95:
+                return rng.choice(self.TNAMES)
+            return rng.choice(["^", "^", "^1", "^2", "[]", "()", "'%list", "'%list<'int>", "'%nosuch", "\\Res", "'", "^18446744073709551616"])
+        r = rng.random()
+        if r < 0.25:
+            return self.tuple_ty(depth, params)
+        if r < 0.38:
+            return self.partial_ty(depth, params)
+        if r < 0.62:
+            return self.spread_ty(depth, params)
+        if r < 0.76:
+            vs = [self.ty(depth - 1, params) for _ in range(rng.choice([2, 2, 3]))]
+            u = " | ".join(vs)
+            self.note("union")
+            return u if top and self.ch(0.5) else "(" + u + ")"
+        if r < 0.84:
+            self.note("function-type")
+            a, b = self.ty(depth - 1, params), self.ty(depth - 1, params)
+            wrap = lambda t: t if t[0] in "'[^" or t[0].isupper() and "|" not in t and " " not in t else "(" + t + ")"
+            f = "#%s -> %s" % (wrap(a), wrap(b))
+            return f if top else "(" + f + ")"
+        if r < 0.89:
+            self.note("process-type")
+            return rng.choice(["@%s", "(@%s -> 'int)", "(@-> %s)", "@"]).replace("%s", rng.choice(self.PRIMS + [self.alias_ref(params, 0)]))
+        if r < 0.95:
+            self.note("intersection")
+            return "(%s & %s)" % (self.ty(depth - 1, params), self.ty(depth - 1, params))
+        return "(" + self.ty(depth - 1, params) + ")"
+
+    # ---------------------------------------------------------------- definitions
+    def definition(self, i):
+        rng = self.rng
+        name = rng.choice(["p", "q", "r", "s", "u", "v", "w", "e", "g", "h"]) + str(i)
+        kind = rng.choice(["tuple-pos", "tuple-named", "tuple-mixed", "union", "union", "partial", "recursive", "generic", "spreading", "spreading",
+                           "spreading", "misc"])
+        if not self.aliases and kind in ("spreading", "misc"):
+            kind = rng.choice(["tuple-pos", "tuple-named", "tuple-mixed", "union", "partial", "recursive"])
+        params = ()
+        if kind == "generic" or self.ch(0.12):
+            params = tuple(rng.sample(["a", "b", "t"], rng.choice([1, 1, 2])))
+        if kind == "tuple-pos":
+            body = self.tuple_ty(2, params, "pos")
+        elif kind == "tuple-named":
+            body = self.tuple_ty(2, params, "named")
+        elif kind == "tuple-mixed":
+            body = self.tuple_ty(2, params, rng.choice(["mixed", "dup"]))
+        elif kind == "union":
+            vs = [rng.choice([self.tuple_ty(2, params, rng.choice(["pos", "named", "mixed", "empty"])), self.tuple_ty(1, params),
+                              rng.choice(self.PRIMS), self.alias_ref(params), self.partial_ty(1, params)]) for _ in range(rng.choice([2, 2, 3, 4]))]
+            body = ("\n  | " if self.ch(0.2) else "") + " | ".join(vs)
+        elif kind == "partial":
+            body = self.partial_ty(2, params)
+        elif kind == "recursive":
+            elem = "'" + params[0] if params else rng.choice(self.PRIMS)
+            body = rng.choice(["Nil | Cons[%s, ^]", "Leaf[%s] | Node[^, ^]", "Nil | Cons[head: %s, tail: ^]", "Null | Arr[(Nil | Cons[^, ^1])] | S[%s]",
+                               "#%s -> ^", "Nil | Cons[%s, ^2]", "[%s, ^]", "(next: ^, v: %s)", "E | W[^, (E | W[^1, ^2])]"]).replace("%s", elem)
+        elif kind == "generic":
+            body = self.ty(2, params, top=True)
+        elif kind == "spreading":
+            body = self.spread_ty(2, params)
+        else:
+            body = self.ty(2, params, top=True)
+        self.note("def-" + kind)
+        if self.ch(0.03):
+            name = ""                      # the module's default type `' = ..`
+        head = "'" + name + ("<%s>" % ", ".join("'" + x for x in params) if params else "")
+        text = "%s = %s" % (head, body)
+        if self.ch(0.05):
+            # self-reference through a spread: `'x = [...'x, a: 'int]`
+            text = "%s = %s" % (head, rng.choice(["[...%s, a: 'int]", "(...%s, a: 'int)", "%s[..., a: 'int]"]).replace("%s", "'" + name))
+            self.note("def-self-spread")
+        if name:
+            self.aliases.append((name, len(params), kind))
+        return text
+
+    # ---------------------------------------------------------------- uses
+    def use(self, j):
+        rng = self.rng
+        t = self.ty(2, (), top=False) if self.ch(0.6) else (self.spread_ty(2, ()) if self.ch(0.6) else self.alias_ref())
+        par = t if t[0] in "'[(" or (t[0].isupper()) else "(" + t + ")"
+        r = rng.random()
+        v = rng.choice(["1", "0x01", "[1, 2]", "A[1]", "[a: 1, b: 0x]", "Pair[1, 2]", "Nil", "Cons[1, Nil]", "Pt[x: 1, y: 2]", "[]", "\"s\""])
+        if r < 0.30:
+            self.note("use-parameter")
+            body = rng.choice(["1", "$", "~", "$.0", "$.a", ".z", "[~]", "$ { | ='int => 1 | 2 }"])
+            return "f%d = #%s { %s }" % (j, par, body) + (", %s f%d" % (v, j) if self.ch(0.4) else "")
+        if r < 0.38:
+            self.note("use-parameter-result")
+            return "f%d = #%s -> %s { %s }" % (j, par, rng.choice(self.PRIMS + [self.alias_ref()]), rng.choice(["1", "$", "~"]))
+        if r < 0.45:
+            self.note("use-generic-function")
+            return "f%d = #<'t>%s { $ }" % (j, self.ty(2, ("t",)) if self.ch(0.7) else par)
+        if r < 0.62:
+            self.note("use-type-pattern")
+            return "%s =%s" % (v, par)
+        if r < 0.74:
+            self.note("use-as-pattern")
+            return "%s =(%s)n%d" % (v, t, j)
+        if r < 0.86:
+            self.note("use-branch-pattern")
+            return "%s { | =%s => 1 | =(%s)m%d => 2 | 3 }" % (v, par, t, j)
+        if r < 0.92:
+            self.note("use-field-pattern")
+            return "%s =%s[%s: (%s)k%d]" % (v, rng.choice(self.TNAMES[:4]), rng.choice(self.LABELS[:3]), t, j)
+        self.note("use-process")
+        return rng.choice(["p%d = @#(%s) { 1 }", "!#(%s)", "p%d = @#%s { !#(%s) }"]).replace("%d", str(j)).replace("%s", t)
+
+    def program(self):
+        rng = self.rng
+        nd = rng.choice([1, 2, 2, 2, 3, 3, 4, 5])
+        parts = [self.definition(i) for i in range(nd)]
+        parts += [self.use(j) for j in range(rng.choice([0, 1, 1, 2, 3]))]
+        if self.ch(0.15):
+            rng.shuffle(parts)           # uses before definitions, definitions out of order
+        sep = rng.choice([", ", ",\n", "\n", ",\n  "])
+        text = sep.join(parts)
+        if self.ch(0.04):
+            text = text.replace(", ", " ", 1)       # a missing comma
+        return text
+
+
+def typedef_programs(rng, n):
+    """n (text, stats) type-definition programs"""
+    out, stats = [], {}
+    while len(out) < n:
+        g = TypeGen(rng)
+        t = g.program()
+        if nesting(t) > 100 or paren_depth(t) > 10:
+            continue
+        for k, v in g.stats.items():
+            stats[k] = stats.get(k, 0) + v
+        out.append(t)
+    return out, stats
+
+
+def typedef_probes():
+    """deterministic shapes: every spread form x every kind of spread target x every position"""
+    defs = {
+        "tuple-pos": "'d = Pair['int, 'int]", "tuple-named": "'d = Pt[x: 'int, y: 'int]", "tuple-mixed": "'d = M['int, y: 'bin]",
+        "tuple-unnamed-pos": "'d = ['int, 'bin]", "tuple-empty": "'d = E", "tuple-dup": "'d = D[a: 'int, a: 'bin]",
+        "union-named": "'d = A[x: 'int] | B[y: 'int]", "union-one-pos": "'d = Circle[r: 'int] | Pt['int, 'int]", "union-prim": "'d = 'int | A[x: 'int]",
+        "union-empty-variants": "'d = U | V | W", "partial": "'d = (x: 'int, y: 'bin)", "partial-named": "'d = Pt(x: 'int)", "partial-empty": "'d = ()",
+        "recursive": "'d = Nil | Cons['int, ^]", "recursive-named": "'d = Nil | Cons[head: 'int, tail: ^]", "generic": "'d<'t> = G[v: 't, 't]",
+        "generic-rec": "'d<'t> = Nil | Cons['t, ^]", "prim": "'d = 'int", "function": "'d = #'int -> 'int", "process": "'d = @'int",
+        "intersection": "'d = (x: 'int) & (y: 'int)", "spread-of-spread": "'c = A['int, k: 'bin], 'd = ['bin, ...'c]", "undefined": "'c = 'int",
+    }
+    out = []
+    for dk, d in defs.items():
+        ref = "'d<'int>" if dk.startswith("generic") else "'d"
+        spreads = ["[...%s, z: 'int]", "[...%s]", "[z: 'int, ...%s]", "N[...%s, z: 'int]", "(...%s, z: 'int)", "(...%s)", "(z: 'int, ...%s)", "N(...%s, z: 'int)",
+                   "(...%s, x: 'bin)", "[...%s, x: 'bin]", "[...%s, ...%s]", "(...%s, ...%s, z: 'int)", "[...%s, 'int]", "(...%s, 'int)"]
+        ident = ["'d[..., z: 'int]", "'d[...]", "'d[..., x: 'bin]", "'d[..., 'int]"] if not dk.startswith("generic") else []
+        for sp in [s_.replace("%s", ref) for s_ in spreads] + ident:
+            out.append("%s, 'e = %s" % (d, sp))                                   # alias position
+            out.append("%s, f = #%s { 1 }" % (d, sp))                             # parameter position
+            out.append("%s, 1 =%s" % (d, sp if sp[0] in "'[(" else sp))           # `=` type pattern
+            out.append("%s, 1 =(%s)n" % (d, sp))                                  # as-pattern
+    out += ["'e = (...'nosuch, z: 'int)", "'e = [...'e, z: 'int]", "'e = (...'e, z: 'int)", "'e = 'e[..., z: 'int]", "f = #(..., z: 'int) { 1 }", "f = #[...] { 1 }",
+            "'a = ['int], 'b = [...'a, ...'a, ...'a], 'c = (...'b, z: 'int)", "'l<'t> = Nil | Cons['t, ^], 'e = (...'l<'int>, z: 'int)", "'l<'t> = Nil | Cons['t, ^], 'e = [...'l, z: 'int]",
+            "'l<'t> = Nil | Cons['t, ^], 'e = (...'l<'int, 'int>, z: 'int)", "'p = (a: 'int), 'q = (...'p, ...'p), 'r = Q(...'q, a: 'bin)", "'e = (...'%list, z: 'int)", "'e = (...'%list<'int>, z: 'int)"]
+    return out
+
+
+CLASSES = ["source", "prefix", "delete", "duplicate", "substitute", "charmut", "nest", "arbitrary", "stringy", "typedefs", "typedefs-mutant"]
 
 
 def generate(rng, sources, n, weights=None):
